@@ -344,7 +344,11 @@ pub fn make_frame_from(ch: &Choices, rng: &mut Xoshiro, bps: u32, bps_code: u8, 
                 break;
             }
         }
-        let sf = sf?;
+        // a target no predictor of this draw can express (residuals beyond 32 bits): store it verbatim
+        let sf = sf.unwrap_or_else(|| {
+            probe("syn_verbatim_fallback");
+            SubframeSpec { bits: *b, wasted: 0, body: SubSpec::Verbatim { samples: s.clone() }, bend: Default::default() }
+        });
         if *b == 33 {
             probe("syn_33bit_side_channel");
         }
